@@ -12,11 +12,12 @@ PROFILES = {
                    flush_vary=True,
                    mix={"read": 8, "getter": 0}),
     "C02": profile(modes=["r+", "r+", "r+", "w+"], zones=ALL_ZONES,
-                   flush_vary=True,
+                   flush_vary=True, alphabets=["plain", "plain", "hostile"],
                    mix={"remove": 6, "drop": 1.5, "remove_all": 0.6,
                         "update": 1, "read": 3, "getter": 1}),
     "C03": profile(modes=["r+", "r+", "r+", "w+"], update_time_rich=True,
                    zones=ALL_ZONES, flush_vary=True,
+                   alphabets=["plain", "plain", "hostile"],
                    mix={"update": 6, "update_all": 2, "remove": 1,
                         "read": 3, "getter": 1}),
     "C06": profile(mix={"read": 3, "getter": 2, "lifecycle": 1.5,
@@ -37,6 +38,7 @@ PROFILES = {
                         "lifecycle": 1.5, "clock": 2},
                    read_vs_getter=0.6, reads_after=(1, 3)),
     "C10": profile(via_h=0.6, measurement_filter=0.6,
+                   alphabets=["plain", "plain", "reserved"],
                    mix={"read": 4, "getter": 3, "remove_all": 0.6,
                         "drop": 0.8}),
     # -- the simulated disk -----------------------------------------------------
